@@ -50,6 +50,7 @@ def _c04_sweep(n, k):
 PROPS['C04']['level'] = 'fault_enumeration'
 PROPS['C04']['legs']['quick'].append(dict(scenario='C04', runs=0, budget=300, tag='sweep', sweep=_c04_sweep(4, 2)))
 PROPS['C04']['legs']['thorough'].append(dict(scenario='C04', runs=0, budget=3000, tag='sweep', sweep=_c04_sweep(6, 3)))
+add_leg('C12', 'C12g', 400, 60, 20000, 600)
 add_leg('C11', 'C11h', 320, 60, 20000, 1500)
 PROPS['C20']['race_legs'] = {'quick': [dict(scenario='C20', runs=480)], 'thorough': [dict(scenario='C20', runs=40000)]}
 add_leg('C20', 'D_deadline_two_readers', 1, 10, 1, 10)
@@ -100,7 +101,7 @@ MANIFEST_TEXT.update({
                 note=SIM_NOTE),
     'C12': dict(design_ref='DESIGN.md §5 C12',
                 technique='deterministic simulation: every emitted packet decoded by an independent decoder, differentially against the repository decoder, re-encoded for stability',
-                text='Every packet emitted in the seeded runs (handshake variants, DATA/I-DATA, SACK, FORWARD-TSN, heartbeats, ...) must be accepted by the independent RFC decoder, decode identically with the repository decoder and re-encode to the same bytes; mandatory parameters are checked. Evidence, not proof.',
+                text='Every packet emitted in the seeded runs (handshake variants, DATA/I-DATA, SACK, FORWARD-TSN, heartbeats, ...) must be accepted by the independent RFC decoder, decode identically with the repository decoder and re-encode to the same bytes; mandatory parameters are checked. An auxiliary leg without simulation (C12g; the codec is a pure function of the bytes) builds structurally valid packets of every chunk kind with arbitrary and boundary field values, alone and bundled: what the repository decoder accepts must carry exactly the values it was built from, decode - encode - decode must be stable, and every chunk must read the same alone and inside a bundle. One defect found there and fixed (F14). Evidence, not proof.',
                 note=SIM_NOTE),
 })
 
